@@ -85,6 +85,7 @@ def file_desc(draw, nested=False):
         # write one itself
         f['explicit_bom'] = draw(hs.integers(0, 3)) == 0
         f['cut_tail'] = draw(hs.sampled_from(range(12))) == 0
+        f['flip_sign'] = draw(hs.sampled_from(range(3))) == 0
         f['foreign_line'] = draw(hs.sampled_from(
             [None, None, '\\ \\hline', '\\ server\\share\\x.txt',
              'garbage', '\\garbage', '\tx', '\\ No newline at end']))
@@ -283,6 +284,16 @@ def damage_bytes(f):
 
     for e in d['hunks']:
         hl, _ = hunks.hunk_lines(e['hunk'])
+
+        if e is target[0] and f.get('flip_sign'):
+            # the whole last hunk, one counting line with the other sign:
+            # one side comes up short, the other long, by the same amount
+            body = list(hl)
+            k = 1 + target[1]
+            sign = body[k][:1]
+            body[k] = {b' ': b'+', b'+': b'-', b'-': b'+'}[sign] + body[k][1:]
+            lines.extend(body)
+            break
 
         if e is target[0]:
             lines.extend(hl[:1 + target[1]])
